@@ -235,6 +235,42 @@ def _run_pts(case):
     except Exception:
         ok_forms = False
     flags["scalar_and_2d_forms_accepted"] = bool(ok_forms)
+    # a scalar in ANY position of the triple (a line of points along z, a ring at one polar angle, ...) is broadcast against the arrays:
+    # same numbers as writing the scalar out as a full array, for all nine conversions and all eight scalar/array patterns
+    mixes_ok, mix_witness = True, None
+    m = min(len(x), 7)
+    trip = {"cartesian": [x[:m], y[:m], z[:m]], "spherical": [sph[0][:m], sph[1][:m], sph[2][:m]], "cylindrical": [cyl[0][:m], cyl[1][:m], cyl[2][:m]]}
+    for src in trip:
+        for dst in trip:
+            for mask in range(8):
+                mixed = [float(a[0]) if (mask >> j) & 1 else np.asarray(a, dtype=float) for j, a in enumerate(trip[src])]
+                full = [np.full(m, float(a[0])) if (mask >> j) & 1 else np.asarray(a, dtype=float) for j, a in enumerate(trip[src])]
+                try:
+                    got = np.asarray(ftf(src, dst)(mixed), dtype=float)
+                    want = np.asarray(ftf(src, dst)(full), dtype=float)
+                    if mask == 7:
+                        good_ = got.shape == (3,) and np.array_equal(got, want[:, 0], equal_nan=True)
+                    else:
+                        good_ = got.shape == (3, m) and np.array_equal(got, want, equal_nan=True)
+                except Exception as e:
+                    good_ = False
+                if not good_ and mix_witness is None:
+                    mix_witness = "%s->%s scalar mask %d" % (src, dst, mask)
+                mixes_ok &= bool(good_)
+    try:
+        from holopy.core.math import to_cartesian
+        ring = to_cartesian(2.0, 0.7, np.linspace(0, 6, 5))
+        ring = np.array([np.asarray(ring[k_], dtype=float) for k_ in ("x", "y", "z")])
+        ring_ok = bool(ring.shape == (3, 5) and np.allclose(np.hypot(np.hypot(ring[0], ring[1]), ring[2]), 2.0, rtol=1e-14))
+        if not ring_ok:
+            mix_witness = mix_witness or "to_cartesian(scalar r, scalar theta, array phi)"
+        mixes_ok &= ring_ok
+    except Exception:
+        mixes_ok = False
+        mix_witness = mix_witness or "to_cartesian(scalar r, scalar theta, array phi)"
+    flags["scalar_array_mixes_broadcast"] = bool(mixes_ok)
+    if mix_witness:
+        flags["scalar_array_mixes_broadcast@" + mix_witness] = False
     resid["single_point_equals_array_of_one"] = fnum(worst_f)
     try:
         ftf("cartesian", "toroidal")
